@@ -232,3 +232,50 @@ Proof. vm_compute. reflexivity. Qed.
 Example nv_list : decode_text [] false (encode true (VList (lit "Int32") [VInt KInt32 (Some 1%Z); VInt KInt32 None; VInt KInt32 (Some (-7)%Z)]))
   = Ok (VList (lit "Int32") [VInt KInt32 (Some 1%Z); VInt KInt32 None; VInt KInt32 (Some (-7)%Z)]).
 Proof. vm_compute. reflexivity. Qed.
+
+(* ================= DateTime: the written text is read back as the same instant ================= *)
+(* fixed-width decimal fields *)
+Lemma digits_rev_length fuel : forall k n, 1 <= k -> (n < 10 ^ N.of_nat k)%N -> length (digits_rev fuel n) <= k.
+Proof.
+  induction fuel as [|f IH]; intros k n Hk Hn; [cbn; lia|]. cbn [digits_rev].
+  destruct (N.ltb_spec n 10) as [Hlt|Hge]; [cbn; lia|]. cbn [length].
+  destruct k as [|[|k]]; [lia| cbn in Hn; lia |].
+  assert (length (digits_rev f (n / 10)) <= S k); [|lia]. apply IH; [lia|].
+  rewrite Nat2N.inj_succ, N.pow_succ_r' in Hn. apply N.div_lt_upper_bound; lia.
+Qed.
+Lemma dec_length k n : 1 <= k -> (n < 10 ^ N.of_nat k)%N -> length (dec n) <= k.
+Proof. intros Hk Hn. unfold dec. rewrite map_length, rev_length. now apply digits_rev_length. Qed.
+Lemma parse_digits_zeros j : forall s acc, parse_digits (repeat "0" j ++ s) acc = parse_digits s (acc * 10 ^ N.of_nat j)%N.
+Proof.
+  induction j as [|j IH]; intros s acc; [cbn; f_equal; lia|]. cbn [repeat app parse_digits].
+  change (is_digit "0") with true. cbv iota. rewrite IH. f_equal. change (digit_val "0") with 0%N.
+  rewrite Nat2N.inj_succ, N.pow_succ_r'. lia.
+Qed.
+Lemma all_digits_pad w n : all_chars is_digit (pad_to w (dec n)) = true.
+Proof.
+  unfold pad_to. assert (A : forall a b, all_chars is_digit a = true -> all_chars is_digit b = true -> all_chars is_digit (a ++ b) = true).
+  { induction a as [|x a IHa]; cbn; intros b Ha Hb; [exact Hb|]. apply andb_true_iff in Ha as [-> Ha]. cbn. now apply IHa. }
+  apply A; [|apply dec_all_digits]. induction (w - length (dec n)) as [|k IH]; [reflexivity|]. cbn. exact IH.
+Qed.
+Lemma pad_length w n : 1 <= w -> (n < 10 ^ N.of_nat w)%N -> length (pad_to w (dec n)) = w.
+Proof.
+  intros Hw Hn. pose proof (dec_length w n Hw Hn). unfold pad_to. rewrite app_length, repeat_length. lia.
+Qed.
+Lemma py_nat_pad w n : 1 <= w -> py_nat (pad_to w (dec n)) = Some n.
+Proof.
+  intros Hw. unfold py_nat. pose proof (py_nat_dec n) as Hd. unfold py_nat in Hd.
+  pose proof (dec_nonempty n) as Hne. unfold pad_to. destruct (repeat "0" (w - length (dec n)) ++ dec n) as [|c r] eqn:E.
+  - apply app_eq_nil in E as [_ E]. congruence.
+  - rewrite <- E. rewrite parse_digits_zeros. cbn [N.mul]. destruct (dec n) as [|c' r'] eqn:E2; [congruence|]. exact Hd.
+Qed.
+Lemma digits_n_pad w (z : Z) rest : 1 <= w -> (0 <= z < 10 ^ Z.of_nat w)%Z ->
+  digits_n w (pad_to w (decZ z) ++ rest) = Some (z, rest).
+Proof.
+  intros Hw Hz. assert (Hd : decZ z = dec (Z.to_N z)) by (destruct z; cbn [decZ Z.to_N]; try reflexivity; lia).
+  rewrite Hd. assert (Hn : (Z.to_N z < 10 ^ N.of_nat w)%N).
+  { apply N2Z.inj_lt. rewrite Z2N.id by lia. rewrite N2Z.inj_pow, nat_N_Z. lia. }
+  unfold digits_n. pose proof (pad_length w (Z.to_N z) Hw Hn) as Hl.
+  rewrite firstn_app, Hl, Nat.sub_diag, firstn_O, app_nil_r, firstn_all2 by lia.
+  rewrite Hl, Nat.eqb_refl, all_digits_pad. cbn [andb]. rewrite py_nat_pad by exact Hw. cbn [omap].
+  rewrite skipn_app, Hl, Nat.sub_diag, skipn_O, skipn_all2 by lia. cbn [app]. now rewrite Z2N.id by lia.
+Qed.
